@@ -172,7 +172,8 @@ where
 
 const DEFAULT_BUFFER: usize = 4096;
 const HEADER: &[u8] = b"{";
-const TRAILER: &[u8] = b"}";
+// (The line break ends a comment on the last line of the document, which would otherwise swallow the brace.)
+const TRAILER: &[u8] = b"\n}";
 
 /// Attempt to read a Recon document from an asynchronous input.
 ///
